@@ -6,7 +6,7 @@ import c12
 
 CONFIGS_QUICK = ["F_all", "F_noenc", "F_def"]  # every configuration whose cfg-gated code the property depends on
 CONFIGS_THOROUGH = ["F_all", "F_noenc", "F_def"]
-TECHNIQUE = 'static analysis: who-may-call rule for lossy decoders (expected 0, positive control), state-machine extraction for EncodingRef with guards, BOM constant table, transitions must be taken (must-store rules), decode_into guard and last-chunk flag, refill discipline of the sniffing helpers (C18) re-evaluated, minimum-input-length bound of every test before a BOM exit'
+TECHNIQUE = 'static analysis: who-may-call rule for lossy decoders (expected 0, positive control), state-machine extraction for EncodingRef with guards, BOM constant table, transitions must be taken (must-store rules), decode_into guard and last-chunk flag, refill discipline of the sniffing helpers (C18) re-evaluated, minimum-input-length bound of every test before a BOM exit, sniff-before-leaving-Init order rule, decoder-input identity rule'
 EXPLANATION = (
     "No lossy decoder is callable: who-may-call rule over the whole crate for the replacing entry points of encoding_rs / "
     "std (expected count 0, with a positive control on a known non-lossy callee that must be found); decode/decode_into "
@@ -115,11 +115,19 @@ def r2_machine(ctx):
         b = ctx.body(F, "reader::EncodingRef::can_be_refined", "R2")
         if b is not None:
             tab = {}
+            other = None
             for p in ctx.paths(b):
-                d = decision_on(p, lambda t: t[0] == "discr")
+                sw = [e for e in p if e[0] == "switch" and e[2][0] == "discr"]
                 r = ret_of(p)
-                if isinstance(d, int) and r is not None:
-                    tab[vs[d]] = r[2]
+                if not sw or r is None or strip_wrappers(r)[0] != "c":
+                    continue
+                if isinstance(sw[0][3], int):
+                    tab[vs[sw[0][3]]] = strip_wrappers(r)[2]
+                else:   # the `_` arm (e.g. of matches!): every variant not listed
+                    other = strip_wrappers(r)[2]
+                    for i in range(len(vs)):
+                        if i not in (sw[0][4] or ()):
+                            tab.setdefault(vs[i], other)
             ctx.ob("R2", "can_be_refined", tab == {"Implicit": True, "BomDetected": True, "Explicit": False, "XmlDetected": False}, "refinable states: %s" % tab, config=cfg)
         # all writes to a field `encoding` of ReaderState
         writes = []
@@ -290,7 +298,10 @@ def r3_bom(ctx):
                     tup = r[3][0]
                     enc = str(tup[1][0])
                     name = "UTF_16BE" if "UTF_16BE" in enc else "UTF_16LE" if "UTF_16LE" in enc else "UTF_8" if "UTF_8" in enc else "?"
-                    tab[lit] = (name, tup[1][1][2])
+                    skipn = strip_wrappers(tup[1][1])
+                    if call_is(skipn, "len") and skipn[3] and bytes_literal(skipn[3][0]) is not None:
+                        skipn = ("c", "usize", len(bytes_literal(skipn[3][0])))   # `MARK.len()` of a constant
+                    tab[lit] = (name, skipn[2])
                 want = {b"\xfe\xff": ("UTF_16BE", 2), b"\xff\xfe": ("UTF_16LE", 2), b"\xef\xbb\xbf": ("UTF_8", 3),
                         b"\x00<\x00?": ("UTF_16BE", 0), b"<\x00?\x00": ("UTF_16LE", 0), b"<?xm": ("UTF_8", 0)}
                 ctx.ob("R3", "detect_encoding:table", tab == want, "signature -> (encoding, bytes to skip): %s" % tab, config=cfg)
